@@ -12,8 +12,9 @@ META = {
              'x unknown-outcome faults; after each recovery get(id) for every id is compared with the acknowledged/flushed '
              'documents (in-flight operation all-or-nothing), a post-recovery add must get a fresh id and persist.'),
     'design_ref': 'DESIGN.md section 4 / C01',
-    'note': ('partial: the proof covers recovery from any invariant-satisfying backend state; that every crash prefix of every '
-             'operation preserves the invariant is explored on the implementation (every k, nested j), not yet proved in Coq. '
+    'note': ('partial: the induction over histories with arbitrarily nested crashes (reachable_invariant, reopens, id_not_reused, '
+             'recovery_idempotent) is proved for add/update/remove/flush; save_extension, index creation/removal and the open '
+             'callback are outside it (proved to write no document; explored on the implementation at every k, nested j). '
              'Below the backend-call granularity nothing is claimed. Index flushes are one atomic step in the model (C10/C11).'),
     'technique': 'Coq proof (invariant + recovery convergence) + translator-generated step orders + certified monitors over a crash explorer',
 }
@@ -22,9 +23,9 @@ META = {
 def run(ck):
     quick = ck.tier == 'quick'
     ck.rule = ('generated workloads (12-18 ops over add/update/remove/flush/save_extension/compact/close+reopen with index '
-               'creation+removal in the callback/rejected writes; tiny index buckets for 1/2 of them) x every crash point k '
-               '(crash after the k-th backend mutation) x nested crash of the recovery at every j for every 9th crashed k (quick; '
-               'every 3rd + a third level in thorough) x {InMemory, MetaStore, EncryptedStore} x every 4th (quick) / every '
+               'creation+removal in the callback/rejected writes; tiny index buckets for 1/2 of them; every 8th workload is a long unflushed tail: a flush, then a run of 3..130 consecutive ids left without a document (added and removed again, or burned by adds the unique index rejects; below, at and above the allocation-watermark stride), then acknowledged adds, killed without close) x every crash point k '
+               '(crash after the k-th backend mutation, k = total: killed after the last acknowledged op) x nested crash of the recovery at every j for every 9th crashed k (quick; '
+               'every 5th + a third level in thorough) x {InMemory, MetaStore, EncryptedStore} x every 4th (quick) / every '
                '(thorough) mutating call failing with an unknown outcome; non-trivial = a recovery with >= 2 stored documents '
                'and an operation in flight')
     cc.coq_part(ck)
@@ -32,8 +33,8 @@ def run(ck):
     if binary:
         args = (['--workloads', '40', '--ops', '15', '--nested-every', '9', '--nested-all', '--flaky-every', '4',
                  '--backends', 'mem,meta,enc', '--model-every', '24'] if quick else
-                ['--workloads', '400', '--ops', '22', '--nested-every', '3', '--nested-all', '--nested2', '--flaky-every', '1',
-                 '--backends', 'mem,meta,enc', '--model-every', '200'])
+                ['--workloads', '160', '--ops', '20', '--nested-every', '5', '--nested-all', '--nested2', '--flaky-every', '2',
+                 '--backends', 'mem,meta,enc', '--model-every', '400'])
         summary, c01, c02, logs = cc.run_explorer(ck, binary, 'c01', args, 'crash')
         if summary:
             ck.count(summary['evaluations'])
